@@ -362,7 +362,7 @@ func (state *RuntimeState) webauthnAuthFinish(w http.ResponseWriter, r *http.Req
 	}
 
 	_, err = state.updateAuthCookieAuthlevel(w, r,
-		authData.AuthType|verifiedAuth|AuthTypeU2F)
+		authData.Username, authData.AuthType|verifiedAuth|AuthTypeU2F)
 	if err != nil {
 		logger.Printf("Auth Cookie NOT found ? %s", err)
 		state.writeFailureResponse(w, r, http.StatusInternalServerError, "Failure updating vip token")
